@@ -282,13 +282,41 @@ structure CacheEntry where
   gz : Option Bytes
   deriving DecidableEq, Repr
 
-/-- mirrors `Assets::buildEntry` (ETags are hashes of the same bytes and are not modelled) -/
-def buildEntry (fs : Fs) (file : Bytes) : Option CacheEntry :=
-  match readFile fs file with
+/-- File-system snapshots seen by the path-taking system calls of ONE lookup, in program order.  The environment may change the
+file system between any two of them (`Snaps.const fs` = nothing changes).  Two groups of system calls are NOT split further: the
+prefix loop + `realpath(prefix)` that `weakly_canonical` runs when the candidate does not exist (all in `s`), and the internals
+of one `realpath` / one `open`. -/
+structure Snaps where
+  /-- `status(candidate)` — first call of `weakly_canonical` — and, when the candidate does not exist, the rest of it -/
+  s : Fs
+  /-- `realpath(candidate)` (only when the candidate exists) -/
+  c : Fs
+  /-- `is_regular_file(resolved)` -/
+  r : Fs
+  /-- `open(resolved, O_RDONLY|O_NOFOLLOW|O_CLOEXEC)` + read -/
+  o : Fs
+  /-- `is_regular_file(resolved + ".gz")` -/
+  g : Fs
+  /-- `open(resolved + ".gz", …)` + read -/
+  z : Fs
+
+def Snaps.const (fs : Fs) : Snaps := ⟨fs, fs, fs, fs, fs, fs⟩
+
+/-- `weakly_canonical` with its two top-level phases in separate snapshots (`weaklyCanonicalAt fs fs = weaklyCanonical fs`) -/
+def weaklyCanonicalAt (fsS fsC : Fs) (p : Bytes) : Except Errno Bytes :=
+  match status fsS p with
+  | .found _ _ => canonical fsC p
+  | _ => weaklyCanonical fsS p
+
+/-- mirrors `Assets::buildEntry` (ETags are hashes of the same bytes and are not modelled); one snapshot per system call -/
+def buildEntryAt (fsO fsG fsZ : Fs) (file : Bytes) : Option CacheEntry :=
+  match readFile fsO file with
   | none => none
   | some b =>
     let gzp := file ++ Gen.Assets.gzSuffix
-    some { bytes := b, gz := if isRegularFile fs gzp then readFile fs gzp else none }
+    some { bytes := b, gz := if isRegularFile fsG gzp then readFile fsZ gzp else none }
+
+def buildEntry (fs : Fs) (file : Bytes) : Option CacheEntry := buildEntryAt fs fs fs file
 
 def lowerAscii (c : UInt8) : UInt8 := if 65 ≤ c.toNat ∧ c.toNat ≤ 90 then c + 32 else c
 
@@ -345,42 +373,41 @@ def fromDirectory (fs : Fs) (root : Bytes) (perRequest : Bool) : Option FsState 
            staticsRoot := (match weaklyCanonical fs s with | .ok r => r | .error _ => s),
            perRequest := perRequest }
 
-/-- mirrors `Assets::getStaticFilesystem`.  The calls up to the regular-file test run in `fsR`, the open/read of
-`buildEntry` in `fsO` (the same file system unless the environment changed it in between — theorem A4). -/
-def getStaticFilesystemAt (fsR fsO : Fs) (st : FsState) (path : Bytes) : Res × FsState :=
+/-- mirrors `Assets::getStaticFilesystem`; every path-taking system call sees its own snapshot (`sn`). -/
+def getStaticFilesystemAt (sn : Snaps) (st : FsState) (path : Bytes) : Res × FsState :=
   let base := st.staticsRoot
   let candidate := pathAppend st.staticsRoot path
-  match weaklyCanonical fsR candidate with
+  match weaklyCanonicalAt sn.s sn.c candidate with
   | .error _ => (.notFound, st)
   | .ok resolved =>
     if !isContained base resolved then (.rejected, st)
-    else if !isRegularFile fsR resolved then (.notFound, st)
+    else if !isRegularFile sn.r resolved then (.notFound, st)
     else if st.perRequest then
-      match buildEntry fsO resolved with
+      match buildEntryAt sn.o sn.g sn.z resolved with
       | none => (.notFound, st)
       | some e => (.found (blobOf e path), st)
     else
       match st.staticCache.lookup path with
       | some e => (.found (blobOf e path), st)
       | none =>
-        match buildEntry fsO resolved with
+        match buildEntryAt sn.o sn.g sn.z resolved with
         | none => (.notFound, st)
         | some e => (.found (blobOf e path), { st with staticCache := (path, e) :: st.staticCache })
 
-/-- mirrors `Assets::getTemplateFilesystem` -/
-def getTemplateFilesystemAt (fsR fsO : Fs) (st : FsState) (name : Bytes) : Option Bytes × FsState :=
+/-- mirrors `Assets::getTemplateFilesystem` (snapshots `s`, `c`, `r`, `o`) -/
+def getTemplateFilesystemAt (sn : Snaps) (st : FsState) (name : Bytes) : Option Bytes × FsState :=
   let base := st.templatesRoot
   let candidate := pathAppend st.templatesRoot name
-  match weaklyCanonical fsR candidate with
+  match weaklyCanonicalAt sn.s sn.c candidate with
   | .error _ => (none, st)
   | .ok resolved =>
     if !isContained base resolved then (none, st)
-    else if !isRegularFile fsR resolved then (none, st)
+    else if !isRegularFile sn.r resolved then (none, st)
     else
       match st.templateCache.lookup name with
       | some d => (some d, st)
       | none =>
-        match readFile fsO resolved with
+        match readFile sn.o resolved with
         | none => (none, st)
         | some d => (some d, { st with templateCache := (name, d) :: st.templateCache })
 
@@ -422,23 +449,23 @@ def isExternalPath (r : Registry) (path : Bytes) : Bool :=
   | a :: _ => !bytesLt path a
   | [] => false
 
-/-- mirrors `Assets::getStaticEmbedded` -/
-def getStaticEmbeddedAt (fsR fsO : Fs) (r : Registry) (path : Bytes) : Res :=
+/-- mirrors `Assets::getStaticEmbedded` (the containment base `weakly_canonical(EXTERNAL_DIR)` is computed in snapshot `s`) -/
+def getStaticEmbeddedAt (sn : Snaps) (r : Registry) (path : Bytes) : Res :=
   match findStatic r path with
   | some a => .found { bytes := a.bytes, mime := mimeFor path, gz := a.gz }
   | none =>
     if !r.externalDir.isEmpty && isExternalPath r path then
-      match weaklyCanonical fsR r.externalDir with
+      match weaklyCanonical sn.s r.externalDir with
       | .error _ => .notFound
       | .ok base =>
         let candidate := pathAppend r.externalDir path
-        match weaklyCanonical fsR candidate with
+        match weaklyCanonicalAt sn.s sn.c candidate with
         | .error _ => .notFound
         | .ok resolved =>
           if !isContained base resolved then .rejected
-          else if !isRegularFile fsR resolved then .notFound
+          else if !isRegularFile sn.r resolved then .notFound
           else
-            match buildEntry fsO resolved with
+            match buildEntryAt sn.o sn.g sn.z resolved with
             | none => .notFound
             | some e => .found (blobOf e path)
     else .notFound
@@ -450,21 +477,21 @@ inductive Assets where
   deriving Repr
 
 /-- mirrors `Assets::getStatic` -/
-def getStaticAt (fsR fsO : Fs) (a : Assets) (path : Bytes) : Res × Assets :=
+def getStaticAt (sn : Snaps) (a : Assets) (path : Bytes) : Res × Assets :=
   if lexicallyRejected path then (.rejected, a) else
   match a with
-  | .embedded r => (getStaticEmbeddedAt fsR fsO r path, a)
-  | .filesystem st => let (r, st') := getStaticFilesystemAt fsR fsO st path; (r, .filesystem st')
+  | .embedded r => (getStaticEmbeddedAt sn r path, a)
+  | .filesystem st => let (r, st') := getStaticFilesystemAt sn st path; (r, .filesystem st')
 
 /-- mirrors `Assets::getTemplate` -/
-def getTemplateAt (fsR fsO : Fs) (a : Assets) (name : Bytes) : Option Bytes × Assets :=
+def getTemplateAt (sn : Snaps) (a : Assets) (name : Bytes) : Option Bytes × Assets :=
   if lexicallyRejected name then (none, a) else
   match a with
   | .embedded r => (findTemplate r name, a)
-  | .filesystem st => let (r, st') := getTemplateFilesystemAt fsR fsO st name; (r, .filesystem st')
+  | .filesystem st => let (r, st') := getTemplateFilesystemAt sn st name; (r, .filesystem st')
 
-def getStatic (fs : Fs) (a : Assets) (path : Bytes) : Res × Assets := getStaticAt fs fs a path
-def getTemplate (fs : Fs) (a : Assets) (name : Bytes) : Option Bytes × Assets := getTemplateAt fs fs a name
+def getStatic (fs : Fs) (a : Assets) (path : Bytes) : Res × Assets := getStaticAt (Snaps.const fs) a path
+def getTemplate (fs : Fs) (a : Assets) (name : Bytes) : Option Bytes × Assets := getTemplateAt (Snaps.const fs) a name
 
 /-- mirrors `Assets::reload` -/
 def reload : Assets → Assets
@@ -481,38 +508,61 @@ def Fs.remove (fs : Fs) (l : Loc) : Fs := { fs with entries := fs.entries.filter
 /-- location named by an absolute, normalised path string (no walk: purely by names) -/
 def locOf (p : Bytes) : Loc := (comps p).reverse
 
-/-! ## 6. The path handed to the first `open()` of a lookup (for the schedule {resolve, swap-leaf, open}) -/
+/-! ## 6. Which system-call boundaries one lookup reaches (for the deterministic schedules of the harness)
 
-def openTargetFs (fsR : Fs) (base : Bytes) (cached : Bool) (path : Bytes) : Option Bytes :=
-  match weaklyCanonical fsR (pathAppend base path) with
-  | .error _ => none
-  | .ok resolved =>
-    if !isContained base resolved then none
-    else if !isRegularFile fsR resolved then none
-    else if cached then none else some resolved
+The points at which the harness can change the file system, named by the system call that FOLLOWS the change:
+`C` `realpath(candidate)`, `R` `is_regular_file(resolved)`, `O` `open(resolved)`, `G` `is_regular_file(resolved.gz)`,
+`Z` `open(resolved.gz)`. -/
 
-def openTargetStatic (fsR : Fs) (a : Assets) (path : Bytes) : Option Bytes :=
-  if lexicallyRejected path then none else
+inductive Point where
+  | C | R | O | G | Z
+  deriving DecidableEq, Repr
+
+/-- snapshots of a lookup during which the file system changes from `fs` to `fs'` just before point `pt` -/
+def Snaps.switchAt (fs fs' : Fs) (pt : Point) : Snaps :=
+  match pt with
+  | .C => ⟨fs, fs', fs', fs', fs', fs'⟩
+  | .R => ⟨fs, fs, fs', fs', fs', fs'⟩
+  | .O => ⟨fs, fs, fs, fs', fs', fs'⟩
+  | .G => ⟨fs, fs, fs, fs, fs', fs'⟩
+  | .Z => ⟨fs, fs, fs, fs, fs, fs'⟩
+
+/-- the points reached after the base/candidate have been formed (`gz`: whether the lookup goes on to the sibling) -/
+def reachedFrom (sn : Snaps) (base candidate : Bytes) (cached gz : Bool) : List Point :=
+  (match status sn.s candidate with | .found _ _ => [Point.C] | _ => []) ++
+  (match weaklyCanonicalAt sn.s sn.c candidate with
+   | .error _ => []
+   | .ok resolved =>
+     if !isContained base resolved then [] else
+     [Point.R] ++
+     (if !isRegularFile sn.r resolved || cached then [] else
+      [Point.O] ++
+      (match readFile sn.o resolved with
+       | none => []
+       | some _ =>
+         if !gz then [] else
+         [Point.G] ++ (if isRegularFile sn.g (resolved ++ Gen.Assets.gzSuffix) then [Point.Z] else []))))
+
+def reachedStatic (sn : Snaps) (a : Assets) (path : Bytes) : List Point :=
+  if lexicallyRejected path then [] else
   match a with
   | .filesystem st =>
-    openTargetFs fsR st.staticsRoot (!st.perRequest && (st.staticCache.lookup path).isSome) path
+    reachedFrom sn st.staticsRoot (pathAppend st.staticsRoot path) (!st.perRequest && (st.staticCache.lookup path).isSome) true
   | .embedded r =>
     match findStatic r path with
-    | some _ => none
+    | some _ => []
     | none =>
       if !r.externalDir.isEmpty && isExternalPath r path then
-        match weaklyCanonical fsR r.externalDir with
-        | .error _ => none
-        | .ok base =>
-          match weaklyCanonical fsR (pathAppend r.externalDir path) with
-          | .error _ => none
-          | .ok resolved => if isContained base resolved && isRegularFile fsR resolved then some resolved else none
-      else none
+        match weaklyCanonical sn.s r.externalDir with
+        | .error _ => []
+        | .ok base => reachedFrom sn base (pathAppend r.externalDir path) false true
+      else []
 
-def openTargetTemplate (fsR : Fs) (a : Assets) (name : Bytes) : Option Bytes :=
-  if lexicallyRejected name then none else
+def reachedTemplate (sn : Snaps) (a : Assets) (name : Bytes) : List Point :=
+  if lexicallyRejected name then [] else
   match a with
-  | .filesystem st => openTargetFs fsR st.templatesRoot (st.templateCache.lookup name).isSome name
-  | .embedded _ => none
+  | .filesystem st =>
+    reachedFrom sn st.templatesRoot (pathAppend st.templatesRoot name) (st.templateCache.lookup name).isSome false
+  | .embedded _ => []
 
 end Iora.Assets
